@@ -487,18 +487,24 @@ func (g *gen) miner() *TxSpec {
 
 // sequence returns the specs of sequence idx and whether it is a "special"
 // sequence (flagged sub-classes; executed transaction by transaction only).
-func sequence(rng *rand.Rand, cfg string, idx int) ([]*TxSpec, bool) {
+func sequence(rng *rand.Rand, cfg string, idx int) (specs []*TxSpec, special bool, blockToo bool) {
 	g := &gen{rng: rng, cfg: cfg}
 	var out []*TxSpec
 	if idx%5 == 4 {
 		switch (idx / 5) % 3 {
 		case 0:
-			return g.stakeSeq(), true
+			return g.stakeSeq(), true, false
 		case 1:
-			return g.tokenSeq(), true
+			return g.tokenSeq(), true, false
 		default:
-			return g.negSeq(), true
+			return g.negSeq(), true, false
 		}
+	}
+	if idx%10 == 2 {
+		return g.staleGasSeq(), true, true
+	}
+	if idx%10 == 7 {
+		return g.authSeq(), true, true
 	}
 	n := 1 + rng.Intn(20)
 	escrow := false
@@ -539,7 +545,195 @@ func sequence(rng *rand.Rand, cfg string, idx int) ([]*TxSpec, bool) {
 	if escrow {
 		out = append(out, &TxSpec{Kind: "mature"}, &TxSpec{Kind: "mature"})
 	}
-	return out, false
+	return out, false, false
+}
+
+// staleGasSeq: blocks of several contract / wrapped-ETH transactions of
+// different senders in which gas-heavy ones (successful, reverting, looping)
+// are mixed with ones that fail at each early exit of the contract executor
+// (gas limit below the intrinsic gas, insufficient funds for gasLimit*price +
+// value, undecodable data, wrong ETH nonce) sent by dust senders whose balance
+// is around what an earlier transaction of the block paid for gas. The block
+// executor keeps per-block context (gas used, logs, contract address) between
+// transactions, so a transaction that fails before its own gas accounting can
+// be charged with a predecessor's. Filled in an earlier block, judged by the
+// block identity (and transaction by transaction in the first pass).
+func (g *gen) staleGasSeq() []*TxSpec {
+	var out []*TxSpec
+	nBlocks := 1 + g.rng.Intn(2)
+	dustUsed := 0
+	for b := 0; b < nBlocks; b++ {
+		var fills []TA
+		var blk []*TxSpec
+		heavyGas := []uint64{}
+		nHeavy := 2 + g.rng.Intn(3)
+		senders := []string{"rich:0", "rich:1", "rich:2", "rich:3", "eoa:0", "eoa:1", "eoa:2", "eoa:3", "eoa:4", "eoa:5", "key:0", "key:1", "key:2"}
+		g.rng.Shuffle(len(senders), func(i, j int) { senders[i], senders[j] = senders[j], senders[i] })
+		for i := 0; i < nHeavy; i++ {
+			src := senders[i]
+			via := "contract"
+			if strings.HasPrefix(src, "key:") && g.rng.Intn(2) == 0 {
+				via = "eth"
+			}
+			gl := g.pick64([]uint64{2500000, 6000000, 12000000, 30000000})
+			heavyGas = append(heavyGas, gl)
+			var s *TxSpec
+			switch g.rng.Intn(4) {
+			case 0: // burns all its gas and fails
+				s = &TxSpec{Kind: "call", Via: via, Src: src, To: "c:Looper", Value: "0", GasLimit: fmt.Sprint(gl)}
+			case 1: // burns all its gas inside a relay, succeeds
+				s = &TxSpec{Kind: "call", Via: via, Src: src, To: "c:RelayOK", Value: g.pick([]string{"0", "0.5"}), GasLimit: fmt.Sprint(gl), Data: []string{"c:Looper"}}
+			case 2:
+				s = &TxSpec{Kind: "create", Via: via, Src: src, Value: "1", GasLimit: fmt.Sprint(gl), Prog: []Action{{Op: "call", To: "eoa:3", Value: weiStr(0.5)}, {Op: g.pick([]string{"stop", "revert", "loop"})}}}
+			default:
+				s = &TxSpec{Kind: "call", Via: via, Src: src, To: g.pick([]string{"eoa:2", "c:Sink", "c:Reverter"}), Value: "0.25", GasLimit: fmt.Sprint(gl)}
+			}
+			s.Template = "stale-gas:heavy"
+			blk = append(blk, s)
+		}
+		nFail := 2 + g.rng.Intn(4)
+		for i := 0; i < nFail && dustUsed < nDust; i++ {
+			d := fmt.Sprintf("dust:%d", dustUsed)
+			dustUsed++
+			via := g.pick([]string{"contract", "contract", "eth"})
+			val := g.pick([]string{"0", "0", "0.000000000000000001", "0.0001"})
+			vw, _ := parseTokens(val)
+			s := &TxSpec{Kind: "call", Via: via, Src: d, To: g.pick([]string{"eoa:1", "c:Sink", "fresh:2"}), Value: val, Template: "stale-gas:early-fail"}
+			if g.rng.Intn(4) == 0 {
+				s.Kind, s.To, s.Prog = "create", "", []Action{{Op: "stop"}}
+			}
+			// what the sender must hold to pass BeforeExecute with gas limit gl
+			need := func(gl uint64) *big.Int {
+				n := new(big.Int).Mul(new(big.Int).SetUint64(gl), gasPrice)
+				return n.Add(n, vw).Add(n, feeWei)
+			}
+			var bal *big.Int
+			switch g.rng.Intn(8) {
+			case 0, 1, 2, 3: // gas limit below the intrinsic gas: fails inside Execute before any gas accounting
+				gl := g.pick64([]uint64{1, 1000, 100000, 600000})
+				s.GasLimit = fmt.Sprint(gl)
+				bal = need(gl)
+			case 4: // cannot afford gasLimit*price + value: rejected by BeforeExecute after the flat fee
+				s.GasLimit = "30000000"
+				bal = new(big.Int).Sub(need(30000000), big.NewInt(1+int64(g.rng.Intn(2))*1e15))
+			case 5: // undecodable contract data (only the native tx type can carry it)
+				s.Via, s.GasLimit = "contract", "abc"
+				bal = need(100000)
+			case 6:
+				s.Via, s.Value, s.GasLimit = "contract", "abc", "100000"
+				bal = need(100000)
+			default: // runs normally on a small gas limit
+				s.GasLimit = "2500000"
+				bal = need(2500000)
+			}
+			// on top of the bare minimum: nothing, a wei, or something around the gas bill of a heavy tx
+			switch g.rng.Intn(5) {
+			case 0:
+			case 1:
+				bal.Add(bal, big.NewInt(1))
+			case 2:
+				bal.Add(bal, big.NewInt(1e13))
+			default:
+				h := new(big.Int).Mul(new(big.Int).SetUint64(heavyGas[g.rng.Intn(len(heavyGas))]), gasPrice)
+				h.Add(h, big.NewInt(int64(g.rng.Intn(3))-1))
+				if g.rng.Intn(2) == 0 {
+					h.Rsh(h, 1)
+				}
+				bal.Add(bal, h)
+			}
+			fills = append(fills, TA{To: d, Amt: "@fill:" + bal.String()})
+			blk = append(blk, s)
+		}
+		g.rng.Shuffle(len(blk), func(i, j int) { blk[i], blk[j] = blk[j], blk[i] })
+		if len(blk) > 11 {
+			blk = blk[:11]
+		}
+		out = append(out, &TxSpec{Kind: "transfer", Src: "rich:0", Template: "dust-fill", Targets: fills}, &TxSpec{Kind: "barrier"})
+		out = append(out, blk...)
+		out = append(out, &TxSpec{Kind: "barrier"})
+	}
+	return out
+}
+
+// authSeq: an invoker contract (the init code of a creation transaction) does
+// AUTH with a valid signature of an authority and AUTHCALLs value to a target.
+// AUTHCALL value is paid by the SPONSOR (the transaction origin), the call is
+// made in the authority's name. Balances of sponsor / invoker / authority are
+// set rich or poor relative to the value, with the value at, just below and
+// just above what the sponsor holds at that moment (its balance minus flat fee
+// and endowment; the gas is only charged at the end).
+func (g *gen) authSeq() []*TxSpec {
+	var out []*TxSpec
+	n := 1 + g.rng.Intn(4)
+	for i := 0; i < n && i < nDust; i++ {
+		au := fmt.Sprintf("auth:%d", g.rng.Intn(4))
+		gl := g.pick64([]uint64{6000000, 12000000, 30000000})
+		gasBill := new(big.Int).Mul(new(big.Int).SetUint64(gl), gasPrice)
+		x := g.pick64([]uint64{0, 1, 1000, 1e15, 1e18})
+		endow := []*big.Int{big.NewInt(0), big.NewInt(1), tokens(1), tokens(3)}[g.rng.Intn(4)]
+		atCall := new(big.Int).Add(gasBill, new(big.Int).SetUint64(x)) // what the sponsor holds when AUTHCALL runs
+		var v *big.Int
+		switch g.rng.Intn(8) {
+		case 0:
+			v = new(big.Int).Sub(atCall, big.NewInt(1))
+		case 1, 2:
+			v = new(big.Int).Set(atCall) // drains the sponsor completely before the gas is charged
+		case 3, 4:
+			v = new(big.Int).Add(atCall, big.NewInt(1)) // one wei more than the sponsor has
+		case 5:
+			v = new(big.Int).Add(atCall, tokens(1))
+		case 6:
+			v = new(big.Int).Rsh(atCall, 1)
+		default:
+			v = big.NewInt(int64(g.rng.Intn(3)))
+		}
+		sponsor := fmt.Sprintf("dust:%d", i)
+		fills := []TA{}
+		if g.rng.Intn(5) == 0 {
+			sponsor = g.pick([]string{"rich:1", "eoa:2", "key:1"}) // rich sponsor
+		} else {
+			s := new(big.Int).Add(atCall, endow)
+			s.Add(s, feeWei)
+			fills = append(fills, TA{To: sponsor, Amt: "@fill:" + s.String()})
+		}
+		// authority: empty, just below / at / above the value, or rich
+		switch g.rng.Intn(5) {
+		case 0:
+		case 1:
+			if v.Sign() > 0 {
+				fills = append(fills, TA{To: au, Amt: "@fill:" + new(big.Int).Sub(v, big.NewInt(1)).String()})
+			}
+		case 2:
+			fills = append(fills, TA{To: au, Amt: "@fill:" + v.String()})
+		default:
+			fills = append(fills, TA{To: au, Amt: "@fill:" + new(big.Int).Add(v, tokens(5)).String()})
+		}
+		via := "contract"
+		if g.rng.Intn(3) == 0 {
+			via = "eth"
+		}
+		ac := Action{Op: "authcall", Auth: au, To: g.pick([]string{"eoa:1", "fresh:3", "c:Sink", "c:Reverter", "fee", "self", "origin"}), Value: v.String()}
+		switch g.rng.Intn(10) {
+		case 0:
+			ac.BadSig = true
+		case 1:
+			ac.NonceOff = 1
+		}
+		prog := []Action{ac}
+		if g.rng.Intn(4) == 0 { // a second AUTHCALL in the same program (authority nonce + 1)
+			prog = append(prog, Action{Op: "authcall", Auth: au, To: "eoa:4", Value: g.pick([]string{"1", "0", v.String()})})
+		}
+		prog = append(prog, Action{Op: g.pick([]string{"stop", "stop", "stop", "revert", "loop"})})
+		if len(fills) > 0 {
+			out = append(out, &TxSpec{Kind: "transfer", Src: "rich:0", Template: "dust-fill", Targets: fills}, &TxSpec{Kind: "barrier"})
+		}
+		out = append(out, &TxSpec{Kind: "create", Via: via, Src: sponsor, Value: weiToTokens(endow), GasLimit: fmt.Sprint(gl), Prog: prog, Template: "authcall"})
+		if g.rng.Intn(2) == 0 { // another contract tx of somebody else in the same block
+			out = append(out, &TxSpec{Kind: "call", Src: g.pick([]string{"eoa:0", "rich:3"}), To: "c:Sink", Value: "0.5", GasLimit: "2500000", Template: "call-value"})
+		}
+		out = append(out, &TxSpec{Kind: "barrier"})
+	}
+	return out
 }
 
 func (g *gen) stakeSeq() []*TxSpec {
